@@ -18,7 +18,7 @@ def expected : List (String × String × List String) :=
    ("Regions.__getitem__", "(self, index) => self.regions[index] if isinstance(self.regions[index], Region) else object.__new__(self.__class__)", ["[not isinstance(self.regions[index], Region)] object.__new__(self.__class__).regions = self.regions[index]"]),
    ("Regions.__len__", "(self) => len(self.regions)", []),
    ("Regions.append", "(self, region) => RAISE(TypeError) if not isinstance(region, Region) else FALLTHROUGH", ["[not not isinstance(region, Region)] self.regions.append(region)"]),
-   ("Regions.extend", "(self, regions) => None", ["[isinstance(regions, Regions)] self.regions.extend(regions.regions)", "[not isinstance(regions, Regions)] stmt for item in regions: if not isinstance(item, Region): raise TypeError('Input regions must be a list of Region objects')", "[not isinstance(regions, Regions)] self.regions.extend(regions)"]),
+   ("Regions.extend", "(self, regions) => None", ["[isinstance(regions, Regions)] self.regions.extend(regions.regions)", "[not isinstance(regions, Regions)] stmt for item in list(regions): if not isinstance(item, Region): raise TypeError('Input regions must be a list of Region objects')", "[not isinstance(regions, Regions)] self.regions.extend(list(regions))"]),
    ("Regions.insert", "(self, index, region) => RAISE(TypeError) if not isinstance(region, Region) else FALLTHROUGH", ["[not not isinstance(region, Region)] self.regions.insert(index, region)"]),
    ("Regions.reverse", "(self) => None", ["self.regions.reverse()"]),
    ("Regions.pop", "(self, index=-1) => self.regions.pop(index)", []),
